@@ -10,6 +10,7 @@ def dispatch (op : String) (payload : Json) : R Json :=
   | "analyse_fn" => Visit.handle payload
   | "cli_merge" => C20.handle payload
   | "names" => C10.handle payload
+  | "locator" => C13.handle payload
   | _ => .error s!"unknown op {op}"
 
 partial def loop (h : IO.FS.Stream) (out : IO.FS.Stream) : IO Unit := do
